@@ -37,7 +37,7 @@ use grin_core::global::{self, ChainTypes};
 use grin_core::pow::{self, Difficulty, PoWContext, Proof, ProofOfWork};
 use grin_core::ser::{self, DeserializationMode, ProtocolVersion, Writer};
 use serde_json::{json, Value};
-use std::collections::{BTreeMap, HashSet, VecDeque};
+use std::collections::{BTreeMap, HashMap, HashSet, VecDeque};
 use std::sync::atomic::{AtomicBool, AtomicU64, AtomicUsize, Ordering};
 use std::sync::{Arc, Mutex};
 use std::time::{Duration, Instant};
@@ -533,37 +533,29 @@ enum JoinMode {
 struct Adjacency {
 	/// (own key, half-edge id = 2*edge+end), sorted
 	by_key: Vec<(u64, u32)>,
-	mode: JoinMode,
+	/// per half-edge id: attachment key, key a partner must have, underlying undirected node
+	own: Vec<u64>,
+	join: Vec<u64>,
+	und: Vec<u64>,
 }
 
 impl Adjacency {
 	fn build(g: &RefGraph, mode: JoinMode) -> Adjacency {
-		let mut by_key = Vec::with_capacity(2 * g.num_edges as usize);
+		let n = 2 * g.num_edges as usize;
+		let mut by_key = Vec::with_capacity(n);
+		let (mut own, mut join, mut und) = (Vec::with_capacity(n), Vec::with_capacity(n), Vec::with_capacity(n));
 		for i in 0..g.num_edges {
 			for end in 0..2u64 {
 				let h = g.half(i, end);
-				let k = if mode == JoinMode::Strict { h.own } else { h.und };
-				by_key.push((k, (2 * i + end) as u32));
+				let (o, j) = if mode == JoinMode::Strict { (h.own, h.join) } else { (h.und, h.und) };
+				by_key.push((o, (2 * i + end) as u32));
+				own.push(o);
+				join.push(j);
+				und.push(h.und);
 			}
 		}
 		by_key.sort_unstable();
-		Adjacency { by_key, mode }
-	}
-	fn own(&self, g: &RefGraph, he: u32) -> u64 {
-		let h = g.half((he >> 1) as u64, (he & 1) as u64);
-		if self.mode == JoinMode::Strict {
-			h.own
-		} else {
-			h.und
-		}
-	}
-	fn join(&self, g: &RefGraph, he: u32) -> u64 {
-		let h = g.half((he >> 1) as u64, (he & 1) as u64);
-		if self.mode == JoinMode::Strict {
-			h.join
-		} else {
-			h.und
-		}
+		Adjacency { by_key, own, join, und }
 	}
 	fn with_key(&self, key: u64) -> &[(u64, u32)] {
 		let lo = self.by_key.partition_point(|x| x.0 < key);
@@ -573,11 +565,53 @@ impl Adjacency {
 		}
 		&self.by_key[lo..hi]
 	}
+
+	/// Edges that can lie on a cycle: repeatedly drop every edge one of whose ends has no partner among
+	/// the remaining edges (the 2-core of the junction relation).
+	fn two_core(&self) -> Vec<bool> {
+		let ne = self.own.len() / 2;
+		let mut alive = vec![true; ne];
+		let mut cnt: HashMap<u64, u32> = HashMap::with_capacity(self.own.len());
+		for k in &self.own {
+			*cnt.entry(*k).or_insert(0) += 1;
+		}
+		let partners = |cnt: &HashMap<u64, u32>, h: usize| -> u32 {
+			let c = *cnt.get(&self.join[h]).unwrap_or(&0);
+			if self.own[h] == self.join[h] {
+				c - 1
+			} else {
+				c
+			}
+		};
+		let mut work: Vec<u32> = (0..ne as u32).collect();
+		while let Some(e) = work.pop() {
+			let e = e as usize;
+			if !alive[e] {
+				continue;
+			}
+			if partners(&cnt, 2 * e) > 0 && partners(&cnt, 2 * e + 1) > 0 {
+				continue;
+			}
+			alive[e] = false;
+			for h in [2 * e, 2 * e + 1] {
+				*cnt.get_mut(&self.own[h]).unwrap() -= 1;
+			}
+			for h in [2 * e, 2 * e + 1] {
+				for (_, g) in self.with_key(self.join[h]) {
+					let e2 = (*g >> 1) as usize;
+					if alive[e2] {
+						work.push(e2 as u32);
+					}
+				}
+			}
+		}
+		alive
+	}
 }
 
 struct CycleSearch<'a> {
-	g: &'a RefGraph,
 	adj: &'a Adjacency,
+	alive: Option<&'a [bool]>,
 	min_len: usize,
 	max_len: usize,
 	steps: u64,
@@ -605,7 +639,7 @@ impl<'a> CycleSearch<'a> {
 			self.truncated = true;
 			return;
 		}
-		let key = self.adj.join(self.g, cur);
+		let key = self.adj.join[cur as usize];
 		let cands: Vec<u32> = self.adj.with_key(key).iter().map(|x| x.1).collect();
 		for gh in cands {
 			if gh == cur {
@@ -615,12 +649,17 @@ impl<'a> CycleSearch<'a> {
 			if (!self.want_paths && e <= self.start) || self.path.contains(&e) {
 				continue;
 			}
+			if let Some(al) = self.alive {
+				if !al[e as usize] {
+					continue;
+				}
+			}
 			let next = gh ^ 1;
-			let nnode = self.g.half(e, (next & 1) as u64).und;
+			let nnode = self.adj.und[next as usize];
 			if nnode == self.start_node {
-				let s0 = (2 * self.start) as u32;
+				let s0 = (2 * self.start) as usize;
 				if !self.want_paths
-					&& self.adj.own(self.g, s0) == self.adj.join(self.g, next)
+					&& self.adj.own[s0] == self.adj.join[next as usize]
 					&& self.path.len() + 1 >= self.min_len
 					&& self.path.len() + 1 <= self.max_len
 				{
@@ -662,7 +701,8 @@ impl<'a> CycleSearch<'a> {
 	}
 }
 
-/// All simple cycles with min_len <= length <= max_len (each found once, rooted at its smallest edge).
+/// All simple cycles with min_len <= length <= max_len (each found once, rooted at its smallest edge), or,
+/// with `want_paths`, open simple paths of exactly max_len edges.
 fn find_cycles(
 	g: &RefGraph,
 	adj: &Adjacency,
@@ -673,9 +713,10 @@ fn find_cycles(
 	want_paths: bool,
 	start_from: u64,
 ) -> (Vec<Vec<u64>>, bool) {
+	let core = if want_paths { None } else { Some(adj.two_core()) };
 	let mut s = CycleSearch {
-		g,
 		adj,
+		alive: core.as_deref(),
 		min_len,
 		max_len,
 		steps: 0,
@@ -694,14 +735,19 @@ fn find_cycles(
 		if s.truncated {
 			break;
 		}
-		let h0 = (2 * st) as u32;
+		if let Some(al) = s.alive {
+			if !al[st as usize] {
+				continue;
+			}
+		}
+		let h0 = (2 * st) as usize;
 		let h1 = h0 + 1;
 		s.start = st;
-		s.start_node = g.half(st, 0).und;
-		let n1 = g.half(st, 1).und;
+		s.start_node = adj.und[h0];
+		let n1 = adj.und[h1];
 		if n1 == s.start_node {
 			// self loop (monopartite variants)
-			if !want_paths && min_len <= 1 && adj.own(g, h0) == adj.join(g, h1) {
+			if !want_paths && min_len <= 1 && adj.own[h0] == adj.join[h1] {
 				s.out.push(vec![st]);
 			}
 			continue;
@@ -710,7 +756,7 @@ fn find_cycles(
 		s.nodes.clear();
 		s.path.push(st);
 		s.nodes.push(n1);
-		s.dfs(h1);
+		s.dfs(h1 as u32);
 	}
 	(s.out, s.truncated)
 }
@@ -1008,6 +1054,14 @@ impl Worker {
 	}
 }
 
+fn thread_cpu_s() -> f64 {
+	let mut ts = libc::timespec { tv_sec: 0, tv_nsec: 0 };
+	unsafe {
+		libc::clock_gettime(libc::CLOCK_THREAD_CPUTIME_ID, &mut ts);
+	}
+	ts.tv_sec as f64 + ts.tv_nsec as f64 * 1e-9
+}
+
 fn spawn_worker(shared: &Arc<Shared>) {
 	let slot = Arc::new(Slot {
 		busy_since: AtomicU64::new(0),
@@ -1070,7 +1124,19 @@ fn spawn_worker(shared: &Arc<Shared>) {
 			} else {
 				let name = job.name.clone();
 				let f = job.f;
-				if let Err(p) = monitor::catch(|| f(&w)) {
+				let tj = Instant::now();
+				let c0 = thread_cpu_s();
+				let r = monitor::catch(|| f(&w));
+				if std::env::var("C05_TRACE").is_ok() {
+					eprintln!(
+						"job {:>7.2}s cpu {:>7.2}s at {:>6.1}s  {}",
+						tj.elapsed().as_secs_f64(),
+						thread_cpu_s() - c0,
+						w.shared.t0.elapsed().as_secs_f64(),
+						name
+					);
+				}
+				if let Err(p) = r {
 					w.run().inconclusive(&format!(
 						"harness panic in job {}: {} @ {}",
 						name, p.message, p.location
@@ -1657,6 +1723,7 @@ fn main() {
 	monitor::install_panic_hook();
 	let san = arg_value(&run.args, "--san");
 	let only = arg_value(&run.args, "--only");
+	let dev_variants = arg_value(&run.args, "--dev-variants");
 	let on = |name: &str| only.as_deref().map(|o| o.split(',').any(|x| x == name)).unwrap_or(true);
 	let scale = if san.is_some() { 0.1 } else { 1.0 };
 	let budget_s = if san.is_some() { 600 } else { run.tier.pick(70, 600) };
@@ -1699,6 +1766,16 @@ fn main() {
 		queue_ser(&shared);
 	}
 
+	if let Some(dv) = &dev_variants {
+		// development aid only (timing of the other variants while one variant hangs); makes the run inconclusive
+		run.inconclusive("--dev-variants given: not a full run");
+		shared
+			.queue
+			.lock()
+			.unwrap()
+			.retain(|j| j.variant.map(|v| dv.split(',').any(|x| x == v.name())).unwrap_or(true));
+		shared.jobs_open.store(shared.queue.lock().unwrap().len(), Ordering::SeqCst);
+	}
 	let threads = 16;
 	for _ in 0..threads {
 		spawn_worker(&shared);
@@ -1730,7 +1807,7 @@ fn queue_exhaustive(shared: &Arc<Shared>) {
 		}
 	}
 	for v in VARIANTS {
-		let (ww, wo) = (shared.n(24, 160), shared.n(24, 160));
+		let (ww, wo) = (shared.n(60, 400), shared.n(60, 400));
 		shared.push(
 			Some(v),
 			format!("scan {} eb4", v.name()),
@@ -1738,8 +1815,8 @@ fn queue_exhaustive(shared: &Arc<Shared>) {
 		);
 	}
 	// random ascending tuples of 32- and 64-edge graphs
-	let jobs = shared.n(6, 40);
-	let per = shared.n(20_000, 50_000);
+	let jobs = shared.n(8, 48);
+	let per = shared.n(40_000, 60_000);
 	for v in VARIANTS {
 		for eb in [5u8, 6] {
 			for j in 0..jobs {
@@ -2178,6 +2255,7 @@ struct SolveSpec {
 	eb: u8,
 	target_cycles: u64,
 	max_seeds: u64,
+	/// cap in thread CPU seconds (the global wall deadline applies as well)
 	time_cap_s: f64,
 	loose_seeds: u64,
 	part: u64,
@@ -2190,7 +2268,7 @@ fn solve_job(w: &Worker, spec: SolveSpec) {
 	let vn = v.name();
 	let seed = w.run().seed;
 	let mut p = Prng::new(seed ^ fnv64(format!("solve{}{}{}p{}", vn, l, eb, spec.part).as_bytes()));
-	let t0 = Instant::now();
+	let t0 = thread_cpu_s();
 	let mut st = Stats::default();
 	let mut honest = 0u64;
 	let mut seeds = 0u64;
@@ -2198,7 +2276,7 @@ fn solve_job(w: &Worker, spec: SolveSpec) {
 	let wl = "solver";
 	while honest < spec.target_cycles
 		&& seeds < spec.max_seeds
-		&& t0.elapsed().as_secs_f64() < spec.time_cap_s
+		&& thread_cpu_s() - t0 < spec.time_cap_s
 		&& !w.shared.out_of_time()
 	{
 		let header = seed_header(
@@ -2370,11 +2448,11 @@ fn queue_solver(shared: &Arc<Shared>) {
 	}
 	for (v, l, eb) in specs {
 		let parts: u64 = if eb >= 15 { 4 } else if eb >= 13 { 2 } else { 1 };
-		let total = if l == 42 { shared.n(4, 40) } else { shared.n(6, 60) };
+		let total = if l == 42 { shared.n(8, 64) } else { shared.n(12, 96) };
 		let target = (total + parts - 1) / parts;
 		let max_seeds = shared.n(3000, 40_000);
-		let cap = shared.tier.pick(10.0, 90.0);
-		let loose = (shared.n(6, 60) + parts - 1) / parts;
+		let cap = shared.tier.pick(6.0, 50.0);
+		let loose = (shared.n(8, 64) + parts - 1) / parts;
 		for part in 0..parts {
 			shared.push(
 				Some(v),
@@ -2877,7 +2955,7 @@ fn queue_selection(shared: &Arc<Shared>) {
 	shared.push(None, "selection vectors".into(), Box::new(selection_vectors_job));
 	let per = shared.n(2, 12);
 	for (chain, ebs, heights) in [
-		(ChainTypes::UserTesting, vec![15u8, 16], vec![0u64, 7, 100]),
+		(ChainTypes::UserTesting, vec![15u8, 16], vec![0u64, 7]),
 		(ChainTypes::AutomatedTesting, vec![10u8, 12], vec![0u64, 4, 13, 1000]),
 		(ChainTypes::Mainnet, vec![11u8, 12], vec![5u64, 262_079, 262_080, 524_159, 524_160, 786_239, 786_240, 1_048_319, 1_048_320]),
 		(ChainTypes::Testnet, vec![11u8], vec![5u64, 185_039, 185_040, 298_080, 552_959, 552_960, 642_239, 642_240]),
